@@ -22,7 +22,7 @@ SPEC = dict(
     exhaustive={'quick': 'every allocation request position of every generated history, single and persistent',
                 'thorough': 'every allocation request position of every generated history, single and persistent'},
     require=['refusal-produced-by-the-default-allocator-itself', 'single-fault-runs', 'persistent-fault-runs', 'buf-setm-below-the-count-refused', 'state-unchanged-after-failed-call', 'retry-after-failure', 'retry-succeeded',
-             'failure-reported-only-when-a-request-was-refused', 'ledger-audited-at-destruction', 'seq-state-compared-with-model',
+             'failure-reported-only-when-a-request-was-refused', 'ledger-audited-at-destruction', 'tight-memory-runs', 'seq-state-compared-with-model',
              'str-state-compared-with-model', 'que-state-compared-with-model', 'str-terminator-survives-failed-call',
              'que-drop-failure-leaves-suffix', 'que-setz-failure-keeps-old-size'],
     cov_files=['vec.c', 'buf.c', 'str.c', 'que.c', 'a.c'], cov_cases=200,
